@@ -6,6 +6,12 @@ time-dependent operator and source, logs the times at which the form is assemble
 satisfies the documented discrete equation, and specifies Observe by restriction (coinciding nodes / times) and on
 polynomial data (interpolation).  This module builds the real SteadyStateLinearPDE / TimeDependentLinearPDE / PDEModel
 objects from the emitted callables and compares after every step of assemble - solve - observe.
+
+Kinds "sseq" / "tseq" (sequences of calls on ONE object): PDE.tla explores, depth bounded, every sequence of
+SetGridObs (incl. None) / SetGridSol / SetTimeObs / Assemble / Solve / Observe / Forward calls on one PDE object, with the
+cached grid-equality decision as part of the state and the invariant that every observation is the one for the CURRENT
+grids and times (named deviation DevStaleGridFlag must violate it); each emitted behaviour is replayed here on one real
+SteadyStateLinearPDE / TimeDependentLinearPDE object (or on the PDEModel wrapping it) and compared after every call.
 """
 META = {
     "claimed": True,
@@ -18,11 +24,25 @@ META = {
              "agree). The harness builds the real PDE objects from the emitted callables and compares the assembled system, solve() "
              "at every stored level (rtol 1e-10), the (theta,t) arguments of every PDE_form call, observe() for final/all/explicit "
              "times and coinciding/shifted grids, PDEModel.forward and its gradient (supplied Jacobian / direction-Jacobian, and "
-             "finite differences of forward against TLC's exact Jacobian)."),
+             "finite differences of forward against TLC's exact Jacobian). "
+             "Sequences on ONE object: a depth-bounded state machine over <<grid_sol, grid_obs, time_obs, cached equality flag, "
+             "assembled parameter, last solution>> with the actions SetGridObs (incl. None), SetGridSol, SetTimeObs, Assemble, Solve, "
+             "Observe, Forward (=PDEModel.forward) and a history variable; TLC checks that every Observe/Forward returns the "
+             "restriction/interpolant for the CURRENT grids and times (SeqObserveCurrent; the named deviation 'grid_obs setter does "
+             "not refresh the cached equality flag' must violate it) on 3-node / 4x4-node grids where the documented quadratic / "
+             "bicubic interpolant is the Lagrange polynomial (exact rationals for any solution); every emitted behaviour is replayed "
+             "on one real SteadyStateLinearPDE / TimeDependentLinearPDE object, or through PDEModel.forward with the grids of "
+             "model.pde changed between evaluations, comparing getters, assembled system, solution and observation after every call."),
     "note": ("Bounded sizes (2-4 nodes for solve, 5x5 nodes for observation); interpolation on non-polynomial data at non-coinciding "
              "points is not specified. 'all'/explicit observation needs >= 4 nodes and >= 4 time levels in the code (bicubic spline); "
              "smaller grids are recorded as an observation only. PDEModel with matrix-valued observations (several times) is "
-             "exercised through observe(solve()) only."),
+             "exercised through observe(solve()) only. Sequences: depth <= 5 calls (quick) / 6 (thorough) after construct-assemble-"
+             "solve, at most 2 setter calls; TimeDependentLinearPDE has no public time_obs setter, so SetTimeObs is realised by "
+             "the setter if a public property `time_obs` with a setter exists and otherwise by constructing a new object with the "
+             "current grids (the documented way to choose time_obs); grid_sol is only changed while grid_obs is explicit (whether "
+             "a grid_obs given as None follows grid_sol is not documented); if a tier emits more behaviours than its budget (3000 "
+             "quick / 25000 thorough; not the case for the committed bounds) all behaviours of <= 3 calls and a VERIF_SEED-seeded "
+             "sample of the longer ones are replayed."),
     "technique": "TLA+ spec (PDE) model-checked with TLC; TLC-emitted problems and exact rational trajectories replayed into cuqi.pde / PDEModel",
 }
 
@@ -434,6 +454,221 @@ def check_sobs(ctx, cuqi, c, idx):
         ctx.mismatch(key, c, "observe() of quadratic data is not p(x_obs) followed by the observation map", exp, obs)
 
 
+# ----------------------------------------------------------------------------------------------------------
+# sequences of calls on ONE PDE object (kinds "sseq" / "tseq" of PDE.tla)
+SEQ_ACTIONS = ("set_grid_obs", "set_grid_sol", "set_time_obs", "assemble", "solve", "observe", "forward")
+
+
+def _seq_levels(v):
+    """TLC's levels sol[j][i] (level j, node i) -> array (nodes, levels)"""
+    return np.array([_qv(u) for u in v]).T
+
+
+def _seq_time_obs_arg(name, times, idx):
+    """how the observation times are handed over: the documented strings or the array"""
+    if name in ("final", "all") and idx % 2 == 0:
+        return name
+    return times.copy()
+
+
+def _seq_build(cuqi, c, form, gs, go, to_name, to, idx):
+    kw = dict(grid_sol=gs.copy(), observation_map=_omap(c["omap"]))
+    if go is not None:
+        kw["grid_obs"] = go.copy()
+    elif idx % 2:
+        kw["grid_obs"] = None
+    if c["kind"] == "sseq":
+        return cuqi.pde.SteadyStateLinearPDE(form, **kw)
+    return cuqi.pde.TimeDependentLinearPDE(form, time_steps=_qv(c["T"]), method=c["method"],
+                                           time_obs=_seq_time_obs_arg(to_name, to, idx), **kw)
+
+
+def _seq_expected_obs(c, e):
+    """expected value of Observe / Forward: steady - TLC applied the map; time - TLC's exact restriction / interpolant,
+    the elementwise map is applied here (32-bit TLC), one observation time -> vector"""
+    if c["kind"] == "sseq":
+        return _qv(e["fwd"])
+    exp = _apply(c["omap"], _qm(e["obs"]))
+    return exp[:, 0] if len(e["to"]) == 1 else exp
+
+
+def check_seq(ctx, cuqi, c, idx):
+    kind, via = c["kind"], c["via"]
+    steady = kind == "sseq"
+    m = c["m"]
+    base = "seq/%s/%s" % (kind, via)
+    ident = (kind, via, c["go0"], c["to0"], c["omap"])
+    calls = []
+    if steady:
+        A0, A1, A2 = (np.array(m[k], dtype=float) for k in ("A0", "A1", "A2"))
+        f0, f1, f2 = (np.array(m[k], dtype=float) for k in ("f0", "f1", "f2"))
+
+        def form(p):
+            calls.append(np.array(p, dtype=float).copy())
+            return A0 + p[0] * A1 + p[1] * A2, f0 + p[0] * f1 + p[1] * f2
+    else:
+        form, _, _ = _time_form(dict(m, T=c["T"]), calls)
+    new = c["new"]
+    gs = _qv(new["gs"])
+    to = _qv(new["to"]) if not steady else None
+    to_name = c["to0"]
+    godef = c["go0"] == "none"
+    go = None if godef else _qv(new["go"])
+    th = np.array(c["th0"], dtype=float)
+    sol_exp = _qv(new["sol"]) if steady else _seq_levels(new["sol"])
+    path = []
+
+    def sig(what):
+        return "%s/%s/path=%s" % (base, what, ".".join(path) or "new")
+
+    # construct - assemble(th0) - solve: the state every behaviour starts from
+    ctx.case(("seq-new",) + ident, facet="seq/%s/new" % kind)
+    try:
+        pde = _seq_build(cuqi, c, form, gs, go, to_name, to, idx)
+        pde.assemble(th)
+        sol = np.asarray(_quiet(pde.solve)[0], dtype=float)
+    except Exception as e:
+        ctx.mismatch(sig("raises"), c, "construct / assemble / solve raised %r" % (e,))
+        return
+    if sol.shape != sol_exp.shape or not _close(sol, sol_exp):
+        ctx.mismatch(sig("solution"), c, "solve() is not the solution of the discrete problem for the assembled parameter", sol_exp, sol)
+        return
+    model = None
+    range_dim = None
+    # abstract state before the first call (needed when a new object has to be built for SetTimeObs)
+    e_prev_state = {"gs": new["gs"], "go": new["go"], "godef": godef, "par": c["th0"]}
+
+    def get_model(n_out):
+        nonlocal model, range_dim
+        if model is None:
+            model = _quiet(lambda: cuqi.model.PDEModel(pde, range_geometry=int(n_out), domain_geometry=2))
+        elif range_dim != n_out:          # the user who changes the observation grid of model.pde adapts the range geometry
+            model.range_geometry = cuqi.geometry.Continuous1D(int(n_out))
+        range_dim = n_out
+        return model
+
+    def compare_obs(e, got, sol_used, what, tag):
+        exp = _seq_expected_obs(c, e)
+        try:
+            got = np.asarray(got, dtype=float)
+        except Exception:
+            ctx.mismatch(sig(tag), c, "%s does not return an array" % what, exp, repr(got)[:200], detail={"step": len(path)})
+            return False
+        good = got.shape == exp.shape and _close(got, exp, 1e-9)
+        if good and e["exact"] and c["omap"] == "id" and sol_used is not None:
+            # grids (and final time) coincide: restriction, the stored values themselves
+            good = np.array_equal(got, sol_used if steady else sol_used[:, -1])
+        if not good:
+            ctx.mismatch(sig(tag), c,
+                         "%s after %s is not the solution restricted to / interpolated on the CURRENT observation grid%s followed by "
+                         "the observation map (grid_sol=%s grid_obs=%s%s)"
+                         % (what, ".".join(path[:-1]) or "construction", "" if steady else " and times",
+                            [_q(q) for q in e["gs"]], [_q(q) for q in e["go"]], "" if steady else " time_obs=%s" % [_q(q) for q in e["to"]]),
+                         exp, got, detail={"step": len(path)})
+        return good
+
+    for k, e in enumerate(c["hist"]):
+        a = e["a"]
+        path.append(a)
+        ctx.case(("seq",) + ident + tuple((x["a"], json.dumps(x["arg"])) for x in c["hist"][:k + 1]), facet="seq/%s/%s" % (kind, a))
+        try:
+            if a == "set_grid_obs":
+                pde.grid_obs = None if e["arg"] == "none" else _qv(e["val"])
+            elif a == "set_grid_sol":
+                pde.grid_sol = _qv(e["val"])
+            elif a == "set_time_obs":
+                to_name, to = e["arg"], _qv(e["val"])
+                prop = getattr(type(pde), "time_obs", None)
+                if isinstance(prop, property) and prop.fset is not None:
+                    pde.time_obs = _seq_time_obs_arg(to_name, to, idx)
+                    ctx.observations["seq_set_time_obs_realised_by"] = "public setter"
+                else:
+                    # no public setter: the documented way to choose the observation times is the constructor
+                    prev = e_prev_state
+                    pde = _seq_build(cuqi, c, form, _qv(prev["gs"]), None if prev["godef"] else _qv(prev["go"]), to_name, to, idx)
+                    pde.assemble(np.array(prev["par"], dtype=float))
+                    model = None
+                    ctx.observations["seq_set_time_obs_realised_by"] = "new object with the current grids (no public time_obs setter)"
+            elif a == "assemble":
+                th = np.array(e["val"]["th"], dtype=float)
+                del calls[:]
+                pde.assemble(th)
+                if steady:
+                    if any(not np.array_equal(p, th) for p in calls) or not calls:
+                        ctx.mismatch(sig("form_calls"), c, "PDE_form is not evaluated at the supplied parameter", [th], calls)
+                    if not (np.array_equal(np.asarray(pde.diff_op, float), _qm(e["val"]["A"]))
+                            and np.array_equal(np.asarray(pde.rhs, float), _qv(e["val"]["f"]))):
+                        ctx.mismatch(sig("assemble"), c, "assembled operator / right-hand side are not A(theta), f(theta)",
+                                     [_qm(e["val"]["A"]), _qv(e["val"]["f"])], [pde.diff_op, pde.rhs])
+            elif a == "solve":
+                del calls[:]
+                out = _quiet(pde.solve)
+                exp = _qv(e["val"]) if steady else _seq_levels(e["val"])
+                ok = isinstance(out, tuple) and len(out) == 2
+                if ok:
+                    sol = np.asarray(out[0], dtype=float)
+                    ok = sol.shape == exp.shape and _close(sol, exp)
+                if not ok:
+                    ctx.mismatch(sig("solution"), c, "solve() after assemble(%s) is not (solution of the discrete problem for that "
+                                 "parameter, info)" % list(th), exp, out[0] if isinstance(out, tuple) and out else repr(out)[:200])
+                    return
+                if not steady and any(not np.array_equal(p, th) for p, _ in calls):
+                    ctx.mismatch(sig("form_calls"), c, "PDE_form is not assembled with the parameter assembled last", th, [p for p, _ in calls][:4])
+            elif a == "observe":
+                if not compare_obs(e, _quiet(lambda: pde.observe(sol)), sol, "observe()", "observe_value"):
+                    return
+            elif a == "forward":
+                th = np.array(e["val"]["th"], dtype=float)
+                exp = _seq_expected_obs(c, e)
+                if exp.ndim == 1:
+                    y = _quiet(lambda: get_model(exp.shape[0]).forward(th))
+                    what = "PDEModel.forward"
+                else:
+                    # several observation times (matrix-valued observation): the three calls PDEModel.forward is documented to
+                    # make ('the PDE is assembled, solved and observed'), on the same object
+                    pde.assemble(th)
+                    y = _quiet(lambda: pde.observe(pde.solve()[0]))
+                    what = "observe(solve()) after assemble"
+                if not compare_obs(e, y, None, what, "forward_value"):
+                    return
+            else:
+                from cuqiverif.core import MachineryError
+                raise MachineryError("PDE.tla emitted an unknown action %r" % (a,))
+        except Exception as ex:
+            from cuqiverif.core import MachineryError
+            if isinstance(ex, MachineryError):
+                raise
+            ctx.mismatch(sig("raises"), c, "%s raised %r" % (a, ex), detail={"step": k + 1})
+            return
+        e_prev_state = e
+        # the public getters after every call
+        g_sol = pde.grid_sol
+        if g_sol is None or not np.array_equal(np.asarray(g_sol, dtype=float), _qv(e["gs"])):
+            ctx.mismatch(sig("grid_sol_getter"), c, "grid_sol is not the solution grid set last", _qv(e["gs"]), g_sol)
+            return
+        g_obs = pde.grid_obs
+        if not e["godef"]:
+            if g_obs is None or not np.array_equal(np.asarray(g_obs, dtype=float), _qv(e["go"])):
+                ctx.mismatch(sig("grid_obs_getter"), c, "grid_obs is not the observation grid set last", _qv(e["go"]), g_obs)
+                return
+        else:          # what the getter returns for a grid_obs given as None is not documented
+            ctx.observations["seq_grid_obs_getter_after_None"] = "None" if g_obs is None else (
+                "grid_sol" if np.array_equal(np.asarray(g_obs, dtype=float), _qv(e["gs"])) else "another grid")
+
+
+def _seq_select(ctx, seqs):
+    """quick / thorough budget: every behaviour of at most 3 calls (observe - set - observe for each setter and value), and
+    a VERIF_SEED-seeded sample of the longer ones if there are more than the budget"""
+    cap = 3000 if ctx.tier == "quick" else 25000
+    if len(seqs) <= cap:
+        return seqs, False
+    short = [c for c in seqs if len(c["hist"]) <= 3]
+    longer = [c for c in seqs if len(c["hist"]) > 3]
+    rng = np.random.RandomState(int(ctx.seed) % (2 ** 31))
+    pick = rng.choice(len(longer), size=max(0, cap - len(short)), replace=False)
+    return short + [longer[i] for i in sorted(pick)], True
+
+
 def observe_small_grids(ctx, cuqi):
     """'all' on a grid with fewer than 4 nodes/levels: neither documented nor excluded - recorded, never a violation."""
     T = np.array([0.0, 0.5, 2.0])
@@ -453,7 +688,8 @@ def _dispatch(ctx, cuqi, cases):
     for i, c in enumerate(cases):
         k = c["kind"]
         counts[k] = counts.get(k, 0) + 1
-        {"steady": check_steady, "time": check_time, "tobs": check_tobs, "sobs": check_sobs}[k](ctx, cuqi, c, i)
+        {"steady": check_steady, "time": check_time, "tobs": check_tobs, "sobs": check_sobs, "sseq": check_seq,
+         "tseq": check_seq}[k](ctx, cuqi, c, i)
     return counts
 
 
@@ -466,15 +702,17 @@ def run(ctx):
     from cuqiverif import tlc as _tlc
     import concurrent.futures, os
     cuqi = _pde_mod()
-    devs = ("OperatorAtOldTime", "DtFromNextInterval")
+    # named deviation -> the invariant it has to violate on the model
+    devs = {"OperatorAtOldTime": "DiscreteEquation", "DtFromNextInterval": "DiscreteEquation", "StaleGridFlag": "SeqObserveCurrent"}
     wd = lambda label: os.path.join(_tlc.WORK, "PDE-c18-%s-%d" % (label, os.getpid()))
     # the (small) deviation runs are started together with the main run (JVM starts in sequence cost minutes on a loaded machine)
-    pool = concurrent.futures.ThreadPoolExecutor(max_workers=2)
+    pool = concurrent.futures.ThreadPoolExecutor(max_workers=3)
     fut = {dev: pool.submit(ctx.tlc, "PDE", cfg="PDE.dev_%s.cfg" % dev, workers=2, timeout=2400, expect_violation=True,
                             workdir=wd(dev)) for dev in devs}
     try:
-        res = ctx.tlc("PDE", cfg="PDE.%s.cfg" % ctx.tier, workers=16, timeout=3600, require_actions=["Start", "Step"],
-                      workdir=wd("main"))
+        res = ctx.tlc("PDE", cfg="PDE.%s.cfg" % ctx.tier, workers=16, timeout=3600,
+                      require_actions=["Start", "Step", "SetGridObs", "SetGridSol", "SetTimeObs", "Assemble", "Solve", "Observe",
+                                       "Forward"], workdir=wd("main"))
     except BaseException:
         concurrent.futures.wait(list(fut.values()))
         for label in ["main"] + list(devs):                       # nothing of a failed run stays under .work
@@ -486,27 +724,45 @@ def run(ctx):
     try:
         ctx.model_must_hold(res, "PDE")
         cases = sorted(res.cases, key=_sort_key)
-        if set(c["kind"] for c in cases) != {"steady", "time", "tobs", "sobs"}:
+        if set(c["kind"] for c in cases) != {"steady", "time", "tobs", "sobs", "sseq", "tseq"}:
             raise MachineryError("PDE emitted kinds %r" % sorted(set(c["kind"] for c in cases)))
-        for dev in devs:
+        for dev, inv in devs.items():
             r2 = fut[dev].result()
-            if r2.ok or r2.violated != "DiscreteEquation":
-                raise MachineryError("deviation %s does not violate DiscreteEquation on the model (violated=%r)" % (dev, r2.violated))
+            if r2.ok or r2.violated != inv:
+                raise MachineryError("deviation %s does not violate %s on the model (violated=%r)" % (dev, inv, r2.violated))
     finally:
         for label in ["main"] + list(devs):
             _tlc.cleanup(wd(label))
+    seqs = [c for c in cases if c["kind"] in ("sseq", "tseq")]
+    for k in ("sseq", "tseq"):
+        for via in ("pde", "model"):
+            seen = set(e["a"] for c in seqs if c["kind"] == k and c["via"] == via for e in c["hist"])
+            need = set(SEQ_ACTIONS) - ({"set_time_obs"} if k == "sseq" else set()) - \
+                ({"forward"} if via == "pde" else {"assemble", "solve", "observe"})
+            if need - seen:
+                raise MachineryError("vacuous model: no %s/%s behaviour with the call(s) %r" % (k, via, sorted(need - seen)))
+    chosen, sampled = _seq_select(ctx, seqs)
+    cases = [c for c in cases if c["kind"] not in ("sseq", "tseq")] + chosen
     counts = _dispatch(ctx, cuqi, cases)
     observe_small_grids(ctx, cuqi)
     ctx.observe("cases_by_kind", counts)
+    ctx.observe("seq_behaviours", {"emitted": len(seqs), "replayed": len(chosen), "sampled": sampled,
+                                   "by_length": {str(n): sum(1 for c in chosen if len(c["hist"]) == n)
+                                                 for n in sorted(set(len(c["hist"]) for c in chosen))}})
     for k in ("steady", "time", "tobs", "sobs"):
         ex = [c for c in cases if c["kind"] == k]
         ctx.sample({"case": ex[len(ex) // 2]})
+    for k in ("sseq", "tseq"):          # one observe - set - observe behaviour per class
+        ex = [c for c in chosen if c["kind"] == k and [e["a"] for e in c["hist"]] == ["observe", "set_grid_obs", "observe"]]
+        if ex:
+            ctx.sample({"case": {kk: vv for kk, vv in ex[0].items() if kk != "m"}})
     ctx.rule = ("one case per problem emitted by TLC from PDE.tla (steady: matrices, theta, solver return shape, observation grid/map with "
                 "exact A, f, u, forward value and Jacobian; time: matrices, non-uniform grid, theta, method, observation mode with the "
-                "exact trajectory and the assembly times; tobs/sobs: polynomial data with exact observed values); distinct = problem x "
-                "comparison group (solve, observe, model forward, gradient variant)")
-    ctx.exhaustive = True
-    ctx.traces = counts.get("time", 0)
+                "exact trajectory and the assembly times; tobs/sobs: polynomial data with exact observed values; sseq/tseq: one "
+                "behaviour = one sequence of <= SeqDepth calls on one PDE object / PDEModel with the exact value of every call); "
+                "distinct = problem x comparison group (solve, observe, model forward, gradient variant; sequences: every prefix)")
+    ctx.exhaustive = not sampled
+    ctx.traces = counts.get("time", 0) + len(chosen)
     ctx.assumptions += ["numpy.linalg.solve inside the scripted linear solvers handed to the PDE classes",
                         "scipy's quadratic / bicubic interpolants reproduce polynomials of degree <= 2 / <= 3 per variable "
                         "(checked: the polynomial cases agree to 1e-9)"]
@@ -516,6 +772,7 @@ def replay(ctx, case):
     if case.get("kind") == "model":
         return run(ctx)
     cuqi = _pde_mod()
-    fn = {"steady": check_steady, "time": check_time, "tobs": check_tobs, "sobs": check_sobs}[case["kind"]]
+    fn = {"steady": check_steady, "time": check_time, "tobs": check_tobs, "sobs": check_sobs, "sseq": check_seq,
+          "tseq": check_seq}[case["kind"]]
     for idx in range(12):          # all harness-side variants (default solver, kwargs, spelling of time_obs, ...)
         fn(ctx, cuqi, case, idx)
